@@ -15,7 +15,7 @@ from core import wire, fr
 class C09(core.Check):
     pid = 'C09'
     unproved = [
-        'which candle is handed to the liquidation check and when: for the normal simulator minute_check_after_matching (once per minute, after all matching, on the stored minute, with the jump-fixed candle); for the fast simulator (once per chunk, with the aggregate) engine correspondence + liquidation oracle',
+        'which candle is handed to the liquidation check and when: for the normal simulator minute_check_after_matching (once per minute, after all matching, on the stored minute, with the jump-fixed candle); for the fast simulator chunk_check_once_with_aggregate (once per chunk, after the matching of all its minutes, with the chunk stored, the clock at the end of the chunk and the AGGREGATE candle); that these are the right times is the property text, that the model is the code is engine correspondence + liquidation oracle',
     ]
     gen_keys = ['jesse/models/Position.py:Position.liquidation_price', 'jesse/models/Position.py:Position.bankruptcy_price',
                 'jesse/models/Position.py:Position._initial_margin_rate', 'jesse/models/Position.py:Position.type',
